@@ -114,6 +114,26 @@ impl Basis {
     pub fn tag(&self) -> String {
         format!("{:?}", self)
     }
+    /// inverse of `tag`
+    pub fn from_tag(t: &str) -> Option<Basis> {
+        let t = t.trim();
+        let (name, args): (&str, Vec<usize>) = match t.find('(') {
+            None => (t, vec![]),
+            Some(i) => (&t[..i], t[i + 1..t.len() - 1].split(',').filter_map(|x| x.trim().parse().ok()).collect()),
+        };
+        Some(match (name, args.as_slice()) {
+            ("Const", []) => Basis::Const,
+            ("Lin", []) => Basis::Lin,
+            ("Exp", [p]) => Basis::Exp(*p),
+            ("ExpRate", [p]) => Basis::ExpRate(*p),
+            ("ExpCos", [p, q]) => Basis::ExpCos(*p, *q),
+            ("Gauss", [p, q]) => Basis::Gauss(*p, *q),
+            ("Rat1", [p]) => Basis::Rat1(*p),
+            ("Rat2", [p]) => Basis::Rat2(*p),
+            ("Sin", [p]) => Basis::Sin(*p),
+            _ => return None,
+        })
+    }
 }
 
 #[derive(Clone, Debug, PartialEq)]
@@ -156,6 +176,11 @@ impl ModelSpec {
     }
     pub fn to_json(&self) -> Value {
         json!({"x": self.x, "basis": self.basis.iter().map(|b| b.tag()).collect::<Vec<_>>(), "np": self.np})
+    }
+    pub fn from_json(v: &Value) -> Option<ModelSpec> {
+        let x: Vec<f64> = v["x"].as_array()?.iter().filter_map(|a| a.as_f64()).collect();
+        let basis: Option<Vec<Basis>> = v["basis"].as_array()?.iter().map(|b| b.as_str().and_then(Basis::from_tag)).collect();
+        Some(ModelSpec { x, basis: basis?, np: v["np"].as_u64()? as usize })
     }
     pub fn names(&self) -> Vec<String> {
         (0..self.np).map(|k| format!("a{k}")).collect()
